@@ -94,7 +94,7 @@ const (
 type Task struct {
 	id     int
 	name   string
-	wake   chan struct{}
+	wake   *baton
 	state  taskState
 	cond   func() bool
 	site   string
@@ -128,7 +128,7 @@ type SchedPlan struct {
 type World struct {
 	tasks    []*Task
 	cur      *Task
-	yieldCh  chan yieldKind
+	yieldCh  *baton
 	seq      uint64
 	now      int64
 	timed    []timedEvent
@@ -164,7 +164,7 @@ func (h *hashWriter) String() string { return hex.EncodeToString(h.h[:8]) }
 
 func NewWorld(sp SchedPlan, stepCap int) *World {
 	w := &World{
-		yieldCh:  make(chan yieldKind),
+		yieldCh:  newBaton(),
 		sched:    sp,
 		rng:      NewChooser(sp.Seed, 77),
 		StepCap:  stepCap,
@@ -214,19 +214,19 @@ func (w *World) EventHash() string { return w.schedHash.String() }
 
 // Spawn creates a task. It may be called before Run or from a running task.
 func (w *World) Spawn(name string, fn func()) *Task {
-	t := &Task{id: len(w.tasks), name: name, wake: make(chan struct{}), world: w, prio: 0}
+	t := &Task{id: len(w.tasks), name: name, wake: newBaton(), world: w, prio: 0}
 	if w.sched.Policy == "pct" {
 		t.prio = 1000 + w.rng.Intn(1000)
 	}
 	w.tasks = append(w.tasks, t)
 	go func() {
-		<-t.wake
+		t.wake.recv()
 		defer func() {
 			if r := recover(); r != nil {
 				t.failed = fmt.Sprintf("%v\n%s", r, debug.Stack())
 			}
 			t.state = stDone
-			w.yieldCh <- ykDone
+			w.yieldCh.send(byte(ykDone))
 		}()
 		fn()
 	}()
@@ -241,8 +241,8 @@ func (w *World) Yield(site string) {
 	}
 	t.site = site
 	t.state = stRunnable
-	w.yieldCh <- ykYield
-	<-t.wake
+	w.yieldCh.send(byte(ykYield))
+	t.wake.recv()
 }
 
 // Block parks the task until cond() holds (evaluated by the scheduler) or the world aborts.
@@ -262,8 +262,8 @@ func (w *World) Block(site string, cond func() bool) bool {
 		t.site = site
 		t.cond = cond
 		t.state = stBlocked
-		w.yieldCh <- ykBlock
-		<-t.wake
+		w.yieldCh.send(byte(ykBlock))
+		t.wake.recv()
 		t.cond = nil
 	}
 }
@@ -464,7 +464,7 @@ func (w *World) Run() {
 		}
 		w.cur = t
 		t.state = stRunnable
-		t.wake <- struct{}{}
+		t.wake.send(0)
 		if !w.awaitYield(t) {
 			return
 		}
@@ -483,12 +483,10 @@ var reportedStuck = map[string]bool{}
 // (a deadlock of the code under test that no simulated step can resolve): the world is then abandoned as it stands.
 func (w *World) awaitYield(t *Task) bool {
 	for {
-		timer := time.NewTimer(lockStallTimeout)
-		select {
-		case <-w.yieldCh:
-			timer.Stop()
+		if _, ok := w.yieldCh.recvTimeout(lockStallTimeout); ok {
 			return true
-		case <-timer.C:
+		}
+		{
 			site := lockedGoroutineSite()
 			if site == "" {
 				continue // slow, not stuck
